@@ -49,7 +49,7 @@ LEVEL_NOTE = ("Trusted: the FIFO/chunking pool model (bound to the real pool by 
               "more than 3 sensors, worker crashes.")
 
 UNIT = 0.04   # seconds between forced completions on the real pool
-MAX_RUNS = 60000
+MAX_RUNS = {"quick": 8000, "thorough": 60000}
 
 
 def _mask(rows):
@@ -104,7 +104,7 @@ def cases(tier):
                 if key in seen:
                     continue
                 seen.add(key)
-                yield Case(cid, {"kind": "explore", "cfg": cfg, "hist": list(hist), "bound": bound},
+                yield Case(cid, {"kind": "explore", "cfg": cfg, "hist": list(hist), "bound": bound, "tier": tier},
                            any(t > 1 for t in hist))
     real = [("A2", 2), ("A2", 3), ("B3", 2)] if tier == "quick" else \
         [("A2", 2), ("A2", 3), ("A2", 4), ("B3", 2), ("B3", 3), ("C2", 2), ("C2", 3)]
@@ -205,7 +205,7 @@ def _explore(p):
     t0 = time.time()
     # the cap is far above anything the unchanged builder needs (<= 1296 schedules per history in the quick
     # tier, <= 46656 in the thorough one); it only bites when a changed builder submits many more tasks per call
-    runs, capped = sched.explore(run, bound=bound, max_runs=MAX_RUNS, max_bad=40,
+    runs, capped = sched.explore(run, bound=bound, max_runs=MAX_RUNS[p.get("tier", "quick")], max_bad=40,
                                  is_bad=lambda ob: any(not (x[0] and x[1] and x[2] and x[4]) for x in ob[0]))
     if capped:
         o.stat("caps_hit", 1)
